@@ -317,4 +317,97 @@ theorem Vd.afterRetries_stream (ws : List (Bool × Waste)) (i : Bool) (σ : Vd) 
     rw [ha]
     exact h
 
+/-! ### Ping and the device-id query against a stream (the two exchanges of a connect) -/
+
+/-- body of a well-formed response of type `n` carrying `values` -/
+def respBody (n : Nat) (values : Bytes) : Bytes := hexDigit n :: hexBytes (values ++ [checksum n values])
+
+/-- any command: a well-formed response of the awaited type with at least two payload bytes is parsed to exactly its payload -/
+theorem parseResponse_respBody (cmd : Nat) (values : Bytes) (hv : IsBytes values) (hl : 2 ≤ values.length)
+    (hn : responseFor cmd < 16) :
+    parseResponse cmd (respBody (responseFor cmd) values) = .ok ⟨values, [checksum (responseFor cmd) values]⟩ := by
+  rw [parseResponse_ok_iff]
+  refine ⟨_, rfl, ?_⟩
+  have hall : IsBytes (values ++ [checksum (responseFor cmd) values]) :=
+    hv.append (IsBytes.cons (checksum_lt _ _) IsBytes.nil)
+  refine ⟨?_, ?_, ?_, ?_, rfl⟩
+  · simp [respBody, hexBytes_length]; omega
+  · simp [respBody, unhexDigit_hexDigit hn]
+  · simp [respBody, hexBytes_length]
+  · simp only [respBody, List.tail_cons]; exact unhex_hexBytes hall
+
+theorem respBody_shape (n : Nat) (hn : n < 16) (values : Bytes) (hv : IsBytes values) :
+    10 ∉ respBody n values ∧ ¬ ((respBody n values).headD 0 = 65 ∧ respBody n values ≠ []) ∨ n = 10 := by
+  by_cases h10 : n = 10
+  · exact Or.inr h10
+  · left
+    have hall : IsBytes (values ++ [checksum n values]) := hv.append (IsBytes.cons (checksum_lt _ _) IsBytes.nil)
+    constructor
+    · intro hm
+      simp only [respBody, List.mem_cons] at hm
+      rcases hm with h | h
+      · unfold hexDigit at h; split at h <;> omega
+      · exact not_mem_hexBytes hall (x := 10) (by decide) h
+    · simp only [respBody, List.headD_cons]
+      intro ⟨h, _⟩
+      unfold hexDigit at h; split at h <;> omega
+
+/-- **Ping behind noise and async frames.** Any complete non-async frame answers a ping. -/
+theorem Vd.ping_stream (σ : Vd) (idle : Bool) (segs : List (Bytes × Bytes)) (noise body rest : Bytes) (hc : σ.port.Clean)
+    (hsegs : ∀ s ∈ segs, 58 ∉ s.1 ∧ 10 ∉ s.2) (hnoise : 58 ∉ noise) (hbody : 10 ∉ body) (hA : ¬ (body.headD 0 = 65 ∧ body ≠ []))
+    (hp : (if idle then [] else σ.pending) ++ σ.port.reply σ.port.nW = (segs.map asyncSeg).flatten ++ noise ++ 58 :: body ++ 10 :: rest) :
+    ∃ σ', σ.ping idle = (σ', .ok ()) ∧ σ'.pending = rest ∧ σ'.port.replies = σ.port.replies ∧
+      σ'.port.nW = σ.port.nW + 1 ∧ σ'.port.Clean := by
+  obtain ⟨hok, hpend, hrep, hnW, hc'⟩ := σ.afterSend_clean idle 1 [] hc
+  obtain ⟨σ', hrr, hp', hweq, _, _⟩ := Vd.receiveResponseF_skip segs ((σ.afterSend idle 1 []).pending.length + 1)
+    (σ.afterSend idle 1 []) noise body rest hc'.2.1 hsegs hnoise hbody hA (by rw [hpend, hp])
+    (by rw [hpend, hp]; have := flatten_asyncSeg_length segs
+        simp only [List.length_append, List.append_assoc]; omega)
+  have hr : (σ.afterSend idle 1 []).receiveResponse = (σ', some body) := hrr
+  refine ⟨σ'.lineEnd, ?_, ?_, ?_, ?_, ?_⟩
+  · unfold Vd.ping
+    rw [Vd.sendReceive_eq, hok]
+    simp only [if_true, hr]
+  · unfold Vd.lineEnd; split <;> simpa [Vd.pending] using hp'
+  · have : σ'.lineEnd.port = σ'.port := by unfold Vd.lineEnd; split <;> rfl
+    rw [this, hweq.2.2.1, hrep]
+  · have : σ'.lineEnd.port = σ'.port := by unfold Vd.lineEnd; split <;> rfl
+    rw [this, hweq.2.1, hnW]
+  · have : σ'.lineEnd.port = σ'.port := by unfold Vd.lineEnd; split <;> rfl
+    rw [this]; exact hc'.of_weq hweq
+
+/-- **The device id behind noise and async frames.** -/
+theorem Vd.getDeviceId_stream (σ : Vd) (idle : Bool) (id : Nat) (hid : id < 65536)
+    (segs : List (Bytes × Bytes)) (noise rest : Bytes) (hc : σ.port.Clean)
+    (hsegs : ∀ s ∈ segs, 58 ∉ s.1 ∧ 10 ∉ s.2) (hnoise : 58 ∉ noise)
+    (hp : (if idle then [] else σ.pending) ++ σ.port.reply σ.port.nW =
+      (segs.map asyncSeg).flatten ++ noise ++ frameOf (respBody 1 [id % 256, id / 256 % 256]) ++ rest) :
+    ∃ σ', σ.getDeviceId idle = (σ', .ok id) ∧ σ'.pending = rest ∧ σ'.port.nW = σ.port.nW + 1 := by
+  have hv : IsBytes [id % 256, id / 256 % 256] := by intro b hb; simp at hb; omega
+  obtain ⟨hok, hpend, hrep, hnW, hc'⟩ := σ.afterSend_clean idle 4 (paramFor 4 0) hc
+  have ⟨hnl, hA⟩ : 10 ∉ respBody 1 [id % 256, id / 256 % 256] ∧
+      ¬ ((respBody 1 [id % 256, id / 256 % 256]).headD 0 = 65 ∧ respBody 1 [id % 256, id / 256 % 256] ≠ []) := by
+    rcases respBody_shape 1 (by omega) [id % 256, id / 256 % 256] hv with h | h
+    · exact h
+    · omega
+  obtain ⟨σ', hrr, hp', hweq, _, _⟩ := Vd.receiveResponseF_skip segs ((σ.afterSend idle 4 (paramFor 4 0)).pending.length + 1)
+    (σ.afterSend idle 4 (paramFor 4 0)) noise _ rest hc'.2.1 hsegs hnoise hnl hA (by rw [hpend, hp]; simp [frameOf])
+    (by rw [hpend, hp]; have := flatten_asyncSeg_length segs
+        simp only [List.length_append, List.append_assoc]; omega)
+  have hr : (σ.afterSend idle 4 (paramFor 4 0)).receiveResponse = (σ', some (respBody 1 [id % 256, id / 256 % 256])) := hrr
+  have hparse := parseResponse_respBody 4 [id % 256, id / 256 % 256] hv (by simp) (by decide)
+  have h41 : responseFor 4 = 1 := by decide
+  rw [h41] at hparse
+  refine ⟨σ'.lineEnd, ?_, ?_, ?_⟩
+  · unfold Vd.getDeviceId Vd.veCommand
+    rw [Vd.sendReceive_eq, hok]
+    simp only [if_true, hr, hparse]
+    have hle : leNat [id % 256, id / 256 % 256] = id := by
+      show id % 256 + 256 * (id / 256 % 256 + 256 * 0) = id
+      omega
+    simp [hle]
+  · unfold Vd.lineEnd; split <;> simpa [Vd.pending] using hp'
+  · have : σ'.lineEnd.port = σ'.port := by unfold Vd.lineEnd; split <;> rfl
+    rw [this, hweq.2.1, hnW]
+
 end Victron
